@@ -455,6 +455,13 @@ def truth_of(expr, env):
             return (None, None)
         if isinstance(f, ast.Name) and f.id == 'bool' and len(expr.args) == 1:
             return (truth_of(expr.args[0], env)[0], None)
+        if isinstance(f, ast.Name) and f.id[:1].isupper() and f.id.endswith(('Error', 'Exception', 'Warning')):
+            return (True, 'OBJ')        # a constructed exception object: truthy, never None
+        if isinstance(f, ast.Name) and f.id == 'len' and len(expr.args) == 1 and not expr.keywords:
+            # the length of a list whose appends are followed is a small counter
+            lm = truth_of(expr.args[0], env)[1]
+            if isinstance(lm, tuple) and lm and lm[0] == 'LEN':
+                return (lm[1] > 0, ('INT', lm[1]))
         return (None, None)
     if isinstance(expr, ast.BinOp) and isinstance(expr.op, ast.Mod) and isinstance(expr.left, ast.Constant) \
             and isinstance(expr.left.value, str):
